@@ -75,7 +75,13 @@ OnDemandChecks(g, od) ==
                                /\ od[i].is_done
                                /\ Range(od[i].visited) = Reach(g)
                                /\ Len(od[i].visited) = Cardinality(Reach(g))
-                               /\ od[i].unique = Cardinality(Reach(g)) /\ od[i].total >= od[i].unique ]
+                               /\ od[i].unique = Cardinality(Reach(g)) /\ od[i].total >= od[i].unique,
+    \* paths rebuilt from fingerprints (discoveries), from their action lists and the model denote the same execution
+    ondemand_paths |-> \A i \in DOMAIN od : \A k \in DOMAIN od[i].discoveries :
+                          LET x == od[i].discoveries[k] IN
+                          /\ ValidActs(g, x.states, x.acts)
+                          /\ x.via_actions = x.states
+                          /\ \E m \in DOMAIN g.props : g.props[m].name = x.name /\ ValidWitness(g, g.props[m], x.states, FALSE) ]
 
 Merge(a, b) == [f \in DOMAIN a \cup DOMAIN b |-> IF f \in DOMAIN a THEN a[f] ELSE b[f]]
 Judged ==
